@@ -335,9 +335,27 @@ def _drop_large(ob, axioms, seed, t0, per_try_ms=4000):
     return False
 
 
-def discharge(ob, axioms, timeout_ms=None, use_cvc5=True, seed=0):
-    """Decide pc /\\ axioms |= goal.  Sets ob.status / backend / seconds / model."""
+def _full_solver(ob, axioms, seed, timeout_ms):
+    s = z3.Solver()
+    s.set("random_seed", seed)
+    for a in axioms:
+        s.add(a)
+    for p in ob.pc:
+        s.add(p)
+    s.add(z3.Not(ob.goal))
+    s.set("timeout", timeout_ms)
+    return s
+
+
+def discharge(ob, axioms, timeout_ms=None, use_cvc5=True, seed=0, first_pass=False):
+    """Decide pc /\\ axioms |= goal.  Sets ob.status / backend / seconds / model.
+    first_pass: only the cheap stages (quantifier-free, z3 3 s, own facts); an obligation they
+    leave open is returned with status 'pending' so that the caller can try the finite refutation
+    search before spending the long stages on it (calling discharge again resumes there)."""
     timeout_ms = timeout_ms or QUICK_TIMEOUT_MS
+    if getattr(ob, "status", None) == "pending":
+        t0 = time.time() - (ob.seconds or 0)
+        return _long_stages(ob, axioms, timeout_ms, use_cvc5, seed, t0)
     t0 = time.time()
     # stage 0: only the quantifier-free hypotheses (fewer hypotheses: sound).  Arithmetic
     # obligations (float ranges, rounding bounds) are then pure QF_NIRA and z3 uses nlsat.
@@ -357,112 +375,97 @@ def discharge(ob, axioms, timeout_ms=None, use_cvc5=True, seed=0):
             ob.seconds = time.time() - t0
             ob.reason = "quantifier-free hypotheses suffice"
             return ob
-    s = z3.Solver()
-    s.set("random_seed", seed)
-    for a in axioms:
-        s.add(a)
-    for p in ob.pc:
-        s.add(p)
-    s.add(z3.Not(ob.goal))
-    # stage 1: z3 with a short budget (almost everything is decided in milliseconds);
-    # stage 2: cvc5 with the full budget; stage 3: z3 with the full budget
-    s.set("timeout", min(FAST_MS, timeout_ms))
+    # stage 1: z3 with a short budget (almost everything is decided in milliseconds)
+    s = _full_solver(ob, axioms, seed, min(FAST_MS, timeout_ms))
     r = s.check()
-    stage3 = False
-    if r == z3.unknown and timeout_ms > FAST_MS and _own_facts_stage(ob, axioms, seed, t0):
+    if r != z3.unknown or timeout_ms <= FAST_MS:
+        return _finish(ob, s, r, t0)
+    # stage 2: the goal's own facts
+    if _own_facts_stage(ob, axioms, seed, t0):
         return ob
-    if r == z3.unknown and timeout_ms > FAST_MS:
-        # stage 2+3: cvc5 (background process) and z3 with the full budget (fresh solver), whichever
-        # decides first
-        job = None
-        if use_cvc5:
-            try:
-                job = _Cvc5Job(s.to_smt2().replace("(check-sat)", ""), max(5, timeout_ms // 1000))
-            except Exception:
-                job = None
-        s = z3.Solver()
-        s.set("random_seed", seed)
-        for a in axioms:
-            s.add(a)
-        for p in ob.pc:
-            s.add(p)
-        s.add(z3.Not(ob.goal))
-        s.set("timeout", timeout_ms)
-        stage3 = True
-        if job is None:
-            r = s.check()
-        else:
-            import threading
-            box = {}
+    if first_pass:
+        ob.status = "pending"
+        ob.backend = "z3"
+        ob.seconds = time.time() - t0
+        ob.reason = "z3: " + s.reason_unknown()
+        return ob
+    return _long_stages(ob, axioms, timeout_ms, use_cvc5, seed, t0)
 
-            def _run():
-                try:
-                    box["r"] = s.check()
-                except Exception:
-                    box["r"] = z3.unknown
-            th = threading.Thread(target=_run, daemon=True)
-            th.start()
-            res = None
-            while th.is_alive():
-                th.join(0.05)
-                if res is None:
-                    got, _err = job.result(wait=False)
-                    if got in ("sat", "unsat"):
-                        res = got
-                        try:
-                            s.ctx.interrupt()
-                        except Exception:
-                            pass
-                    elif got == "unknown":
-                        res = "unknown"
-            r = box.get("r", z3.unknown)
-            if res in ("sat", "unsat") and r == z3.unknown:
-                pass
-            elif r == z3.unknown and res is None:
-                res, _err = job.result(wait=True)
-            if r == z3.unknown and res in ("unsat", "sat"):
-                ob.seconds = time.time() - t0
-                ob.backend = "cvc5"
-                ob.status = "discharged" if res == "unsat" else "refuted"
-                ob.reason = "z3: unknown; cvc5: " + res + ("" if res == "unsat" else " (no model extracted)")
-                return ob
-            job.cancel()
+
+def _finish(ob, s, r, t0):
     ob.seconds = time.time() - t0
     ob.backend = "z3"
     if r == z3.unsat:
         ob.status = "discharged"
-        return ob
-    if r == z3.sat:
+    elif r == z3.sat:
         ob.status = "refuted"
         ob.model = s.model()
         ob.reason = "z3: sat"
-        return ob
+    else:
+        ob.status = "undecided"
+        ob.reason = "z3: " + s.reason_unknown()
+    return ob
+
+
+def _long_stages(ob, axioms, timeout_ms, use_cvc5, seed, t0):
+    # stage 3: z3 with the full budget (fresh solver, own thread) and cvc5 (background process),
+    # whichever decides first
+    s = _full_solver(ob, axioms, seed, timeout_ms)
+    job = None
+    if use_cvc5:
+        try:
+            job = _Cvc5Job(s.to_smt2().replace("(check-sat)", ""), max(5, timeout_ms // 1000))
+        except Exception:
+            job = None
+    if job is None:
+        r = s.check()
+    else:
+        import threading
+        box = {}
+
+        def _run():
+            try:
+                box["r"] = s.check()
+            except Exception:
+                box["r"] = z3.unknown
+        th = threading.Thread(target=_run, daemon=True)
+        th.start()
+        res = None
+        while th.is_alive():
+            th.join(0.05)
+            if res is None:
+                got, _err = job.result(wait=False)
+                if got in ("sat", "unsat"):
+                    res = got
+                    try:
+                        s.ctx.interrupt()
+                    except Exception:
+                        pass
+                elif got == "unknown":
+                    res = "unknown"
+        r = box.get("r", z3.unknown)
+        if r == z3.unknown and res is None:
+            res, _err = job.result(wait=True)
+        if r == z3.unknown and res in ("unsat", "sat"):
+            ob.seconds = time.time() - t0
+            ob.backend = "cvc5"
+            ob.status = "discharged" if res == "unsat" else "refuted"
+            ob.reason = "z3: unknown; cvc5: " + res + ("" if res == "unsat" else " (no model extracted)")
+            return ob
+        job.cancel()
+    if r != z3.unknown:
+        return _finish(ob, s, r, t0)
+    ob.backend = "z3"
     ob.reason = "z3: " + s.reason_unknown()
-    # stage 4: drop the largest quantified hypotheses (fewer hypotheses: sound).  Large callee
-    # postconditions / invariants that are irrelevant to this goal often drown the instantiation
-    # engine; a proof from a subset of the hypotheses is a proof.
+    # stage 4: fewer hypotheses (sound).  Large callee postconditions / invariants that are
+    # irrelevant to this goal often drown the instantiation engine; a proof from a subset of the
+    # hypotheses is a proof.
     if _small_plus_rare(ob, axioms, seed, t0):
         return ob
     if _relevance_stage(ob, axioms, seed, t0):
         return ob
     if _drop_large(ob, axioms, seed, t0):
         return ob
-    if use_cvc5 and not stage3:
-        try:
-            smt2 = s.to_smt2().replace("(check-sat)", "")
-            res, err = _cvc5(smt2, max(5, timeout_ms // 1000))
-        except Exception as e:
-            res, err = "unknown", repr(e)
-        ob.seconds = time.time() - t0
-        if res == "unsat":
-            ob.status = "discharged"
-            ob.backend = "cvc5"
-            return ob
-        if res == "sat":
-            ob.status = "refuted"
-            ob.backend = "cvc5"
-            ob.reason += "; cvc5: sat (no model extracted)"
-            return ob
-        ob.reason += f"; cvc5: {res} {err}"
+    ob.seconds = time.time() - t0
     ob.status = "undecided"
     return ob
